@@ -27,6 +27,7 @@ type CommentHistoryStep struct {
 // CommentTimelineItem is a TimelineItem that holds a Comment and its edition history
 type CommentTimelineItem struct {
 	combinedId entity.CombinedId
+	targetId   entity.Id // the Operation that created the comment (combinedId only holds a prefix of its Id)
 	Author     identity.Interface
 	Message    string
 	Files      []repository.Hash
@@ -39,6 +40,7 @@ func NewCommentTimelineItem(comment Comment) CommentTimelineItem {
 	return CommentTimelineItem{
 		// id: comment.id,
 		combinedId: comment.combinedId,
+		targetId:   comment.targetId,
 		Author:     comment.Author,
 		Message:    comment.Message,
 		Files:      comment.Files,
